@@ -72,6 +72,22 @@ fn check_blinded_forward(
 	Ok((amt_to_forward, outgoing_cltv_value))
 }
 
+/// verification hook (add-only): [`check_blinded_forward`] on plain numbers, no unknown features
+#[cfg(feature = "verif_hooks")]
+pub(crate) fn verif_check_blinded_forward(
+	inbound_amt_msat: u64, inbound_cltv_expiry: u32, fee_base_msat: u32,
+	fee_proportional_millionths: u32, cltv_expiry_delta: u16, htlc_minimum_msat: u64,
+	max_cltv_expiry: u32,
+) -> Result<(u64, u32), ()> {
+	check_blinded_forward(
+		inbound_amt_msat,
+		inbound_cltv_expiry,
+		&PaymentRelay { cltv_expiry_delta, fee_proportional_millionths, fee_base_msat },
+		&PaymentConstraints { max_cltv_expiry, htlc_minimum_msat },
+		&BlindedHopFeatures::empty(),
+	)
+}
+
 fn check_trampoline_payment_constraints(
 	outer_hop_data: &msgs::InboundTrampolineEntrypointPayload, trampoline_cltv_value: u32,
 	trampoline_amount: u64,
